@@ -22,9 +22,11 @@ SHAPES = ["accept", "reject", "before-user", "after-login", "anonymous-then-pass
           # a custom user manager that guards its password check with aioftp.with_timeout, and the check stalls
           "auth-times-out",
           # the PASS line is cut off: its bytes arrive without the line end and the connection ends
-          "eof-after-pass", "eof-after-right-pass"]
+          "eof-after-pass", "eof-after-right-pass",
+          # a peer that ends its lines with a bare LF (`printf 'USER bob\nPASS pw\nQUIT\n' | nc`), or mixes line ends
+          "lf-only", "lf-only-eof", "mixed-line-ends", "lf-only-right"]
 ACCEPTING = ("accept", "retry", "accept-then-work", "accept-relogin", "two-sessions-quit-relogin", "two-sessions-drop-relogin",
-             "eof-after-right-pass")
+             "eof-after-right-pass", "lf-only-right")
 SPELL = ["PASS", "pass", "PaSs"]
 # spellings that are not PASS under str.lower() but are under other case mappings (casefold, upper): if the server
 # takes one of them for PASS its argument is a password and must not be logged; if it answers 502 it is not a password
@@ -90,6 +92,7 @@ def scenario(shape, spelling, p, via_client):
             w = rig.world
             a = w.aioftp
             codes = []
+            half_closed = False
             if via_client:
                 async def main():
                     c = a.Client(path_io_factory=a.MemoryPathIO)
@@ -133,8 +136,24 @@ def scenario(shape, spelling, p, via_client):
                     "eof-after-right-pass": ["USER bob", ("@eof", line)],
                     "two-sessions-drop-relogin": ["USER bob", line, (1, "@connect"), (1, "USER bob"), (1, line),
                                                   "USER bob", (1, "@drop"), line, "PWD", "USER bob", line],
+                    "lf-only": [("@raw", b"USER bob\n"), ("@raw", b"%PASS%\n"), ("@raw", b"PWD\n")],
+                    "lf-only-right": [("@raw", b"USER bob\n%PASS%\nPWD\n")],
+                    "lf-only-eof": [("@raw+eof", b"USER bob\n%PASS%\nQUIT\n")],
+                    "mixed-line-ends": [("@raw", b"USER bob\n%PASS%\r\n"), ("@raw", b"PWD\r\n")],
                 }[shape]
                 for h in hist:
+                    if isinstance(h, tuple) and h[0] in ("@raw", "@raw+eof"):
+                        sess = rig.sessions[0]
+                        pl = line if isinstance(line, bytes) else line.encode("utf-8")
+                        sess.send(h[1].replace(b"%PASS%", pl.rstrip(b"\r\n")))
+                        rig.world.settle(0)
+                        if h[0] == "@raw+eof":
+                            sess.ctl.send_eof()
+                            rig.world.settle()
+                            half_closed = True
+                        r = sess.ctl.take_replies()
+                        codes.append([c for c, _ in (r or [])])
+                        continue
                     if isinstance(h, tuple) and h[0] == "@eof":
                         sess = rig.sessions[0]
                         raw = h[1] if isinstance(h[1], bytes) else h[1].encode("utf-8")
@@ -163,7 +182,8 @@ def scenario(shape, spelling, p, via_client):
                     else:
                         r = rig.ev(0, h)
                     codes.append([c for c, _ in (r or [])])
-                rig.ev(0, "QUIT")
+                if not half_closed:
+                    rig.ev(0, "QUIT")
             rig.world.settle(0)
             return cap.text(), codes
         finally:
